@@ -77,6 +77,26 @@ def run(ctx):
                     reqs.setdefault((st, t, "late%d" % (m // 1500)), []).append(q)
                     m += 1
                     n_stmt += 1
+    # texts just outside the grammar StmtGen describes: "any statement that parses" is decided by the parser under test, not
+    # by the specification, so what the parser happens to accept of these is executed too (it must answer, not crash)
+    near = ["SELECT avg(*) FROM t8", "SELECT count() FROM t8", "SELECT avg() FROM t8", "SELECT count(*), avg(*) FROM t8 GROUP BY a",
+            "SELECT count(a, s) FROM t8", "SELECT avg(count(a)) FROM t8", "SELECT * FROM t8 ORDER BY", "SELECT * FROM t8 GROUP BY",
+            "SELECT * FROM t8 LIMIT", "SELECT * FROM t8 LIMIT 1 OFFSET", "SELECT FROM t8", "SELECT * FROM", "SELECT a, FROM t8",
+            "SELECT * FROM t8 WHERE", "SELECT * FROM t8 WHERE a", "SELECT * FROM t8 WHERE a =", "SELECT * FROM t8 WHERE = 1",
+            "SELECT * FROM t8 JOIN t8", "SELECT * FROM t8 JOIN t8 u ON", "SELECT * FROM t8 t8 JOIN t8 t8 ON t8.a = t8.a",
+            "SELECT a a a FROM t8", "SELECT * FROM t8 ORDER BY a a", "SELECT * FROM t8 ORDER BY 1", "SELECT 1 FROM t8", "SELECT 1",
+            "SELECT 'x' FROM t8", "SELECT TRUE FROM t8 WHERE TRUE", "SELECT * FROM t8 WHERE TRUE", "SELECT * FROM t8 WHERE 1",
+            "SELECT a = s FROM t8", "SELECT a < TRUE, s >= 1 FROM t8", "SELECT * FROM t8 LIMIT 0 OFFSET 0", "SELECT * FROM t8 LIMIT 1 LIMIT 2",
+            "SELECT count(*) FROM t8 WHERE zz = 1", "SELECT avg(s) FROM t8", "SELECT avg(c) FROM t8 GROUP BY c", "SELECT a FROM t8 GROUP BY a, a",
+            "SELECT a, count(*) FROM t8 GROUP BY s", "SELECT * FROM t8 GROUP BY a", "INSERT INTO t8 VALUES ()", "INSERT INTO t8 () VALUES ()",
+            "INSERT INTO t8 (a) VALUES (1), ()", "INSERT INTO t8 VALUES (1, 'a', TRUE, 2), (1)", "UPDATE t8 SET", "UPDATE t8 SET a", "UPDATE t8 SET a = ",
+            "UPDATE t8 SET a = a", "UPDATE t8 SET a = s", "UPDATE t8 SET a = 1, a = 2", "DELETE FROM", "DELETE FROM t8 WHERE", "DELETE t8",
+            "CREATE TABLE t9 ()", "CREATE TABLE t9 (a)", "CREATE TABLE t9 (a INT, a INT)", "CREATE TABLE t9 (a VARCHAR)", "CREATE TABLE t9 (a VARCHAR())",
+            "CREATE TABLE t9 (a VARCHAR(0))", "CREATE TABLE (a INT)", "CREATE DATABASE", "CREATE", "USE", "SHOW", "SHOW DATABASE", "SHOW DATABASES x"]
+    for st in ("nulls", "empty", "nodb"):
+        t = rng.randrange(1, len(tables)) if st == "nulls" else 0
+        reqs.setdefault((st, t, "near"), []).extend(dict(raw=x, **{"from": [], "list": [], "where": [], "group": [], "order": [], "limit": -1, "offset": -1, "style": 0}) for x in near)
+        n_stmt += len(near)
     # data-changing statements: each batch on a fresh copy of the database
     dmls = list(sets["dmls8"])
     rng.shuffle(dmls)
